@@ -159,7 +159,46 @@ def run_guard(g, rep, rng, release=False):
         rep.violation("extracted model and vm_compute disagree on %s: %r vs %r" % (cid, a, b),
                       {"kind": "extraction-mismatch", "case": cid}, no_input=True)
     rep.coverage["timing"] = g.stats
+    if not g.ws.name.startswith("c02"):
+        verdict_agreement(g, dropped, rep)
     return dropped
+
+
+def mixed_rules_must_be_refused(rep, rng, tier, why):
+    """rule sets the macro cannot honour as a whole (built-in validators next to `with` / `error` in
+    every order, repeated blocks): a declaration that compiles has silently dropped a written rule"""
+    import verdicts
+    decls = [d for d in verdicts.gen_c02_decls(rng.fork("c02"), tier) if "mustreject" in d.tags]
+    for d in decls:
+        d.id = "m" + d.id
+    g, dropped = verdict_run("mixedrules", decls, runner.FEATURES_ALL, rep, rng)
+    for d in decls:
+        if d.id not in dropped:
+            rep.violation("declaration %s writes rules the macro cannot honour together and compiles: %s" % (d.id, why),
+                          {"kind": "verdict", "decl": d.to_json(), "decl_rust": runner.decl_module(d, None).split("pub fn run")[0]})
+    rep.coverage["mixed_rule_declarations_refused"] = len([d for d in decls if d.id in dropped])
+
+
+def verdict_agreement(g, dropped, rep):
+    """a corpus declaration the model accepts must build together with the harness module that calls
+    its constructors and derived traits (a constructor or trait that vanished shows up here), and one
+    the model refuses must not build"""
+    bad = 0
+    for d in g.decls:
+        mv = g.model_verdict.get(d.id, "missing")
+        m_rej = mv.startswith("reject")
+        if (d.id in dropped) == m_rej or mv == "missing":
+            continue
+        bad += 1
+        if bad > 3:
+            continue
+        payload = {"kind": "verdict", "decl": d.to_json(), "decl_rust": runner.decl_module(d, None).split("pub fn run")[0],
+                   "rustc": (dropped.get(d.id) or ["(compiles)"])[:3], "model": mv}
+        if d.id in dropped:
+            rep.violation("declaration %s is accepted by the model but does not build with the module that calls its constructors and derived traits: %s"
+                          % (d.id, dropped[d.id][0][:200]), payload, no_input=True)
+        else:
+            rep.violation("declaration %s is refused by the model (%s) but builds" % (d.id, mv), payload, no_input=True)
 
 
 def profile_crosscheck(g, rep):
@@ -386,6 +425,8 @@ def c07(tier, rng, rep, only=None):
             elif c.impl != c.model:
                 rep.violation("model and implementation differ on %s(%s): impl %s, model %s" % (c.op, c.arg, c.impl, c.model),
                               case_payload(c, g), no_input=True)
+    if only is None:
+        mixed_rules_must_be_refused(rep, rng, tier, "the written built-in validators have no error variant and are never reported")
     rep.coverage.update({
         "evaluations": n_cases, "distinct_nontrivial": n_err,
         "rule": "guard corpus plus every permutation of the full built-in validator set per family (integers also with contradictory constant bounds); non-trivial = the constructor rejected; the reported variant is compared with the first violated validator of the L3 specification; the variant list is pinned by a wildcard-free match compiled per declaration",
@@ -778,9 +819,7 @@ def run_guard_arb(g, rep, rng):
         rep.violation("extracted model and vm_compute disagree on %s: %r vs %r" % (cid, a, b),
                       {"kind": "extraction-mismatch", "case": cid}, no_input=True)
     rep.coverage["timing"] = g.stats
-    for did, msgs in dropped.items():
-        if not g.model_verdict.get(did, "").startswith("reject"):
-            rep.notes.append("declaration %s unexpectedly rejected: %s" % (did, msgs[0][:200]))
+    verdict_agreement(g, dropped, rep)
     return dropped
 
 
@@ -851,7 +890,11 @@ def c12(tier, rng, rep, only=None):
         for d in edecls:
             n_gate += 1
             payload = {"kind": "verdict", "decl": d.to_json(), "decl_rust": runner.decl_module(d, None), "rustc": (dropped_e.get(d.id) or ["(compiles)"])[:3]}
-            if not d.has_finite and d.id not in dropped_e:
+            if getattr(d, "must_refuse", False) and d.id not in dropped_e:
+                rep.violation("float declaration %s asks for Eq / Ord without the traits they presuppose and compiles%s" % (d.id, "" if d.has_finite else ": a NaN is obtainable and comparable"), payload)
+            elif getattr(d, "must_refuse", False):
+                pass
+            elif not d.has_finite and d.id not in dropped_e:
                 rep.violation("float declaration %s derives Eq / Ord without `finite` and compiles: a NaN is obtainable" % d.id, payload)
             elif d.has_finite and d.id in dropped_e:
                 rep.violation("float declaration %s with `finite` may not derive Eq / Ord: %s" % (d.id, dropped_e[d.id][0][:160]), payload, no_input=True)
@@ -1098,13 +1141,14 @@ def c16(tier, rng, rep, only=None):
         ops = [("msgs", "")]
         for v in neighbours(d) if hasattr(d, "bounds") else []:
             ops.append(("try_new", val_sexp(v)))
+            ops.append(("de_msg", val_sexp(v)))
         if hasattr(d, "bounds") and d.family() in ("int", "float"):
             # a string the inner type parses to a rejected value: the FromStr error embeds the sentence
             ops.append(("from_str_msg", val_sexp(("s", "7" if d.family() == "int" else "7.5"))))
         g.add_ops(d, ops)
     g = make_guard_run(tier, rng, decls=decls, ops_for=ops_for, spec=False, wsname="msg")
     run_guard(g, rep, rng)
-    n = n_truth = 0
+    n = n_truth = n_embed = 0
     phrases_seen = {}
     for d in g.decls:
         if d.id not in g.live:
@@ -1183,9 +1227,13 @@ def c16(tier, rng, rep, only=None):
                 if c.op == "from_str_msg" and c.impl not in (None, "ok", "na"):
                     if c.impl != "Failed to parse %s: %s" % (d.name, text):
                         rep.violation("FromStr error text %r does not embed the validation sentence %r" % (c.impl, text), case_payload(c, g))
+                if c.op == "de_msg" and c.impl not in (None, "accepted", "na"):
+                    n_embed += 1
+                    if c.impl != "mp=1 json=1 ron=1":
+                        rep.violation("the serde error of a rejected %s does not embed the validation sentence in every format: %s" % (c.arg, c.impl), case_payload(c, g))
     rep.coverage.update({"evaluations": n + n_truth, "distinct_nontrivial": n_truth,
                          "rule": "single-validator declarations for every bound kind x family x bound sign / magnitude (literal and constant bounds, several type names); the Display text of every variant is parsed into (type name, relation phrase, echoed bound); the phrase, read literally, is evaluated at the bound and its neighbours (next float up / down, +-1, string lengths) and compared with the real constructor's verdict; texts compared with the model's templates; FromStr error embedding checked",
-                         "phrases": {"%s/%s/%s" % k: v for k, v in sorted(phrases_seen.items())}, "exhaustive": False})
+                         "phrases": {"%s/%s/%s" % k: v for k, v in sorted(phrases_seen.items())}, "serde_errors_embedding_the_sentence": n_embed, "exhaustive": False})
     for d in g.decls[:: max(1, len(g.decls) // 6)][:6]:
         if d.id in g.live:
             rep.samples.append({"decl": d.id, "kind": getattr(d, "vkind", None), "messages": g.by_decl[d.id][0].impl})
@@ -1534,6 +1582,12 @@ def c04(tier, rng, rep, only=None):
         ops.append(("de_json_key", val_sexp(("s", "{}"))))
         if d.family() == "int":
             ops.append(("de_json_key", val_sexp(("s", "{\"1\":0,\"7\":[1,2],\"100\":null}"))))
+        # deserialize_in_place on a value obtained from the first documents, fed each of a few others
+        firsts = [x for x in docs if x.strip()][:3]
+        others = some[:6] + ["null", "[1]", "\"\"", "\"unterminated", "1e400"]
+        for x in firsts:
+            for y in others:
+                ops.append(("de_inplace", "(p %s %s)" % (val_sexp(("s", x)), val_sexp(("s", y)))))
         ops.append(("de_json_opt", val_sexp(("s", "null"))))
         ops.append(("de_json_vec", val_sexp(("s", "[]"))))
         g.add_ops(d, ops)
@@ -1548,6 +1602,12 @@ def c04(tier, rng, rep, only=None):
         got, exp = c.impl, (c.extra[0] if c.extra else None)
         if got == "panic":
             rep.violation("%s(%s) panicked" % (c.op, c.arg), case_payload(c, g))
+            continue
+        if c.op == "de_inplace":
+            cls[("de_inplace", got)] = cls.get(("de_inplace", got), 0) + 1
+            if got not in ("na", "same=1", "kept=1"):
+                rep.violation("deserialize_in_place(%s): %s (on success the place must hold what a fresh deserialization gives, on failure the value it held before)"
+                              % (c.arg, got), case_payload(c, g))
             continue
         nested = c.op.startswith("de_json_")
         if nested:
@@ -1608,6 +1668,12 @@ def c10(tier, rng, rep, only=None):
         if "TryFrom" in info.traits or "From" in info.traits:
             # the value to serialize may also have been obtained through the derived conversion
             ops += [("ser_conv", val_sexp(v)) for v in vals[::2]]
+        if "FromStr" in info.traits and d.family() in ("int", "float"):
+            # ... or by parsing its decimal text
+            ops += [("ser_parse", val_sexp(v)) for v in vals[::2] if not (d.family() == "float" and is_nan_bits(v[1], FLOAT_TYPES[d.inner]))]
+        if "Default" in info.traits and info.has_default and vals:
+            # ... or from Default
+            ops.append(("ser_default", val_sexp(vals[0])))
         g.add_ops(d, ops)
     g = make_guard_run(tier, rng, decls=decls, ops_for=ops_for, spec=False, wsname="serde")
     run_guard(g, rep, rng)
@@ -2253,7 +2319,7 @@ def inventory_check(g, rep, what, decl_filter=None):
                 if r[0] == "bare":
                     own = {d.name, d.name + "Error", d.name + "ParseError", "CErr", "T", "TT", "Inner", "__Visitor", "D", "DE", "S", "E", "H", "V"}
                     own |= {g_[0] for g_ in d.generics}
-                    own |= {e_[0].split("::")[0].rstrip("!") for e_ in d.env} | {"RE0", "RE1", "RE2", "RE3", "RE4"}
+                    own |= {e_[0].split("::")[0].rstrip("!") for e_ in d.env} | {"RE0", "RE1", "RE2", "RE3", "RE4", "RE5"}
                     own |= set(re.findall(r"[A-Za-z_]\w*", d.inner))
                     bad = [x for x in r[1].split(",") if x and x not in NOSTD_BARE_OK and x not in own]
                     if bad:
@@ -2316,6 +2382,7 @@ def c05(tier, rng, rep, only=None):
         g.build()
         g.run_model()
         n_inv += inventory_check(g, rep, "c05")
+    mixed_rules_must_be_refused(rep, rng, tier, "values are built without running the written built-in validators")
     rep.coverage["expansions_checked"] = n_inv
     rep.coverage.update({"evaluations": n + n_inv, "distinct_nontrivial": sum(1 for m in mods if m[2]),
                          "rule": "(structural) every emitted impl block and function of the real expansion (-Zunpretty=expanded parsed with syn) of the guard / serde / Arbitrary corpora: struct and field visibility, private module, no extra items, no &mut receiver / &mut return / mutable field access, direct construction only in try_new / new / unsafe new_unchecked, every other function returning the type calls try_new / new, derived impls = declared derives, re-exports = declared visibility, all compared with the inventory model; (behavioural) bypass catalogue (tuple / struct-literal construction, field read / write, destructuring, *t = .., as_mut, AsMut / BorrowMut / DerefMut, &mut *t, iter_mut, for x in &mut t, get_mut / push / clear through Deref, new_unchecked without flag / without unsafe, new / From beside validation, Default without default, private helper functions, naming the private module, naming a private newtype or its error types from outside) x declaration shapes (int, String, Vec, float, validation-free; with / without new_unchecked) x position (sibling module / declaring module); each program is its own module, rustc's verdicts collected by iterated builds; legal twins must compile",
